@@ -14,7 +14,8 @@
    [sha] is any function (crypto/sha256); key u = hex (sha u).
    Kernel semantics of rename(2)/open inodes/O_EXCL are the meaning of the
    events: assumed, not proved (partial). *)
-From NV Require Import Base C14_Model C14_Proofs.
+From NV Require Import Base Generated C14_Model C14_Proofs.
+Open Scope string_scope.
 
 (* In every reachable state, at every instant, every directory entry is a
    temporary name or a key that holds the COMPLETE content of a writer that was
@@ -92,3 +93,34 @@ Theorem C14_refuted_inplace :
     getN i (s_ino s) = Some d /\ forall w wr, getN w (s_w s) = Some wr -> d <> w_content wr.
 Proof. exact (conj inplace_mixed (conj inplace_trunc inplace_key_incomplete)). Qed.
 Print Assumptions C14_refuted_inplace.
+
+(* The case model of the correspondence check (hook-granularity schedules expanded
+   into traces of the semantics above) meets the boolean oracle that is evaluated on
+   what the implementation did: reads are misses or complete bundles of a writer of
+   that key, the API-level freshness monitor accepts, the listing holds only
+   complete keys and names that cannot be keys. *)
+Theorem C14_model_meets_oracle : forall i, wf i = true -> spec_ok i (model i) = true.
+Proof. exact model_spec_ok. Qed.
+Print Assumptions C14_model_meets_oracle.
+
+(* non-vacuity: two writers of the same URL, a crash, and a reader that opens
+   after the first rename and reads in two chunks while the second writer renames *)
+Example C14_example_trace :
+  let tr1 := [ECreate 0 "u" cA tmp1; EWrite 0 3; EWrite 0 1; EClose 0;
+              ECreate 1 "u" cB (tmp_prefix ++ "22" ++ tmp_suffix); EWrite 1 2] in
+  let tr2 := [ECreate 2 "u" cB (tmp_prefix ++ "333" ++ tmp_suffix); EWrite 2 6; EClose 2; ERename 2; ECrash 1] in
+  let tr3 := [ERead 7 4; ECreate 3 "u" cA (tmp_prefix ++ "4" ++ tmp_suffix); EWrite 3 4; EClose 3; ERename 3; ERead 7 9; EEof 7] in
+  let tr := tr1 ++ ERename 0 :: tr2 ++ EOpen 7 "u" :: tr3 in
+  forallb safe tr = true /\
+  exists s rr, exec sha0 init tr = Some s /\ getN 7%N (s_r s) = Some rr /\ r_st rr = RDone (Hit cB) /\
+    List.length (s_dir s) = 2%nat.
+Proof. split; [reflexivity|]. eexists. eexists. repeat split; vm_compute; reflexivity. Qed.
+
+Example C14_example_case :
+  let i := mk_input false [("u", [171%N; 205%N])] [(0%N, ("u", "b1")); (1%N, ("u", "b22"))]
+             [(0%N, tmp_prefix ++ "17" ++ tmp_suffix); (1%N, tmp_prefix ++ "4" ++ tmp_suffix)]
+             [SW 0; SR 0 "u"; SW 0; SW 1; SW 0; SW 0; SR 1 "u"; SW 1; SW 1; SW 1; SR 2 "u"] in
+  wf i = true /\
+  model i = mk_obs [1; 2; 1; 3; 4; 2; 3; 4]%N [(0%N, "u", OMiss); (1%N, "u", OHit "b1"); (2%N, "u", OHit "b22")]
+                   [("abcd", "b22")].
+Proof. split; vm_compute; reflexivity. Qed.
